@@ -38,6 +38,11 @@ META = {
 }
 SPEC_DIR = "pageresource"
 TRACE_SPEC = ("Trace_PageResource.tla", "Trace_PageResource.cfg")
+# allocation churn (collections triggered by allocation: reserve / poll / clear_request / block):
+# every collecting plan but Compressor, whose compaction panics on this workload (reported to the
+# coordinator; it is not a page-resource matter: CompressorSpace::update_references reads a header
+# word as a reference)
+CHURN_PLANS = [p for p in sc.PLANS if p not in ("NoGC", "Compressor")]
 MUTANTS = ["double_grant", "beyond_extent", "release_not_subtracting", "release_subtracts_twice",
            "commit_without_reserve", "clear_request_dropped"]
 
@@ -50,6 +55,9 @@ def matrix(tier):
         for p in ["SemiSpace", "Immix", "MarkSweep", "PageProtect", "GenCopy"]:
             runs.append(sc.SRun(p, layout="compressed", name="c", programs=4, ops=120,
                                 sems="0,0,0,0,1,2,2,6", seed_off=1))
+        for p in CHURN_PLANS:
+            runs.append(sc.SRun(p, name="churn", heap=8, sems="0,2", programs=0, seed_off=2,
+                                extra=["--mode", "churn", "--rounds", "1"]))
         return runs
     for p in sc.PLANS:
         for i, w in enumerate([1, 4, 8]):
@@ -67,6 +75,13 @@ def matrix(tier):
         if p != "NoGC":
             runs.append(sc.SRun(p, name="cycles", heap=16, sems="0,0,0,2,6", seed_off=10,
                                 extra=["--mode", "cycles", "--cycles", "60"]))
+    for p in CHURN_PLANS:
+        runs.append(sc.SRun(p, name="churn", heap=8, sems="0,2", programs=0, seed_off=13,
+                            extra=["--mode", "churn", "--rounds", "4"]))
+        runs.append(sc.SRun(p, name="churn16", heap=16, workers=6, sems="0,2", programs=0, seed_off=14,
+                            extra=["--mode", "churn", "--rounds", "3", "--slots", "20"]))
+        runs.append(sc.SRun(p, layout="compressed", name="churn", heap=8, sems="0,2", programs=0,
+                            seed_off=15, extra=["--mode", "churn", "--rounds", "3"]))
     for p in ["Immix", "GenImmix", "StickyImmix", "ConcurrentImmix"]:
         runs.append(sc.SRun(p, feats=["immix_smaller_block"], name="sb", programs=15, seed_off=11))
         runs.append(sc.SRun(p, name="defrag", programs=15, seed_off=12, heap=10,
@@ -94,9 +109,9 @@ def run(ctx):
                require_actions=["Reserve", "Grant", "Fail", "Reset", "ResetCursor"])
     if ctx.tier != "quick":
         ctx.tlc_mc("PageResource.tla", "MC_PageResource_big.cfg", spec_dir=sd, workers=4, timeout=1500)
-    for m in MUTANTS:
-        ctx.tlc_mc("PageResource.tla", "MC_PageResource_mutant_%s.cfg" % m, spec_dir=sd,
-                   expect_violation=True, workers=2, timeout=300)
+    sc.mc_parallel(ctx, sd, "PageResource.tla",
+                   [("MC_PageResource_mutant_%s.cfg" % m, dict(expect_violation=True, workers=1, timeout=300))
+                    for m in MUTANTS], par=3)
     runs = matrix(ctx.tier)
     exes = sc.build_all(ctx, runs)
     items = sc.run_all(ctx, runs, exes, sc.PR_EVENTS)
